@@ -83,7 +83,14 @@ class Recorder:
             n = s.n_clines if b == "_W0_step" else s.n_dd
             f = G.cond_W0 if b == "_W0_step" else G.cond_V0
             if loc_a.ndim or scale_a.ndim:
-                return self.fail(b + ".draw_shape", "scalar block drew with array parameters")
+                # a vectorised draw of several coordinates at once: every element is a draw of its own
+                try:
+                    la, sa = np.broadcast_arrays(loc_a, scale_a)
+                except ValueError:
+                    return self.fail(b + ".draw_shape", "scalar block drew with incompatible array parameters")
+                for l_, s_ in zip(la.ravel().tolist(), sa.ravel().tolist()):
+                    self.normal(l_, s_)
+                return
             best = None
             for c in range(n):
                 if c in self.visited:
